@@ -1209,15 +1209,70 @@ func (k *compSink) Process(ctx context.Context, e *el.Event) (*el.Event, error) 
 	return nil, nil
 }
 
+// brokerSender hands the filter's emissions to the real Broker and remembers what was handed over.
+type brokerSender struct {
+	b    *el.Broker
+	sent []*compPayload
+	log  *[][]int // every emission of the filter, in the order it happened
+}
+
+func (s *brokerSender) Send(ctx context.Context, t el.EventType, payload interface{}) (el.Status, error) {
+	if cp, ok := payload.(*compPayload); ok {
+		s.sent = append(s.sent, cp)
+		*s.log = append(*s.log, cp.Seqs)
+	}
+	return s.b.Send(ctx, t, payload)
+}
+
+// gateRec is the pipeline node: the gated filter, with a note of which events it accepted.
+type gateRec struct {
+	gf       *gated.Filter
+	accepted map[int]bool
+	flushed  []*compPayload // composites the filter returned to the pipeline
+	log      *[][]int
+	stamp    int
+	call     map[int]int // event seq -> stamp when it reached the filter
+	ret      map[int]int // ... and when the filter returned
+}
+
+func (g *gateRec) Type() el.NodeType { return g.gf.Type() }
+func (g *gateRec) Reopen() error     { return g.gf.Reopen() }
+func (g *gateRec) Close(ctx context.Context) error { return g.gf.Close(ctx) }
+func (g *gateRec) Process(ctx context.Context, e *el.Event) (*el.Event, error) {
+	gp, isG := e.Payload.(*gPayload)
+	if isG {
+		g.stamp++
+		g.call[gp.Seq] = g.stamp
+	}
+	out, err := g.gf.Process(ctx, e)
+	if isG {
+		g.stamp++
+		g.ret[gp.Seq] = g.stamp
+	}
+	if isG && err == nil {
+		g.accepted[gp.Seq] = true
+	}
+	if out != nil {
+		if cp, ok := out.Payload.(*compPayload); ok {
+			g.flushed = append(g.flushed, cp)
+			*g.log = append(*g.log, cp.Seqs)
+		}
+	}
+	return out, err
+}
+
 func runGateBroker(rc *RunCtx) {
 	tp := rc.Tape
 	sim := rc.Sim
 	h := &gateHarness{now: time.Date(2026, 5, 1, 0, 0, 0, 0, time.UTC), composeFail: map[int]bool{}, composeGate: map[int]bool{}, sendFail: map[int]bool{}}
 	E := []time.Duration{50, 1000}[tp.Choose(2, "expiration")]
 	b, _ := el.NewBroker()
-	gf := &gated.Filter{Broker: b, Expiration: E, NowFunc: func() time.Time { return h.now }}
+	var emitLog [][]int
+	bs := &brokerSender{b: b, log: &emitLog}
+	gf := &gated.Filter{Broker: bs, Expiration: E, NowFunc: func() time.Time { return h.now }}
+	gr := &gateRec{gf: gf, accepted: map[int]bool{}, log: &emitLog, call: map[int]int{}, ret: map[int]int{}}
 	sink := &compSink{h: h}
-	b.RegisterNode("gate", gf)
+	b.RegisterNode("gate", gr)
 	b.RegisterNode("fmt", &passNode{el.NodeTypeFormatter})
 	b.RegisterNode("sink", sink)
 	if err := b.RegisterPipeline(el.Pipeline{PipelineID: "events", EventType: "t", NodeIDs: []el.NodeID{"gate", "fmt", "sink"}}); err != nil {
@@ -1236,8 +1291,9 @@ func runGateBroker(rc *RunCtx) {
 		id := []string{"a", "b", "c"}[c] // one id per sender: arrival order of an id is its sender's order
 		k := 1 + tp.Choose(5, "nops")
 		type step struct {
-			ev  *gcEvent
-			adv time.Duration
+			ev          *gcEvent
+			adv         time.Duration
+			cancelAfter int
 		}
 		var prog []step
 		var pd []string
@@ -1251,8 +1307,15 @@ func runGateBroker(rc *RunCtx) {
 			seq++
 			e := &gcEvent{seq: seq, id: id, flush: tp.Choose(5, "flush") == 0}
 			evs = append(evs, e)
-			prog = append(prog, step{ev: e})
-			pd = append(pd, fmt.Sprintf("Send(%s,flush=%v)#%d", id, e.flush, e.seq))
+			st := step{ev: e, cancelAfter: -1}
+			switch tp.Choose(10, "cancel") {
+			case 0:
+				st.cancelAfter = 0 // cancelled before the Send
+			case 1, 2, 3:
+				st.cancelAfter = 1 + tp.Choose(25, "cancel-after") // cancelled by another task after that many of its steps
+			}
+			prog = append(prog, st)
+			pd = append(pd, fmt.Sprintf("Send(%s,flush=%v,cancel-after=%d)#%d", id, e.flush, st.cancelAfter, e.seq))
 		}
 		progs = append(progs, pd)
 		sim.Spawn(fmt.Sprintf("sender%d", c), func() {
@@ -1264,9 +1327,23 @@ func runGateBroker(rc *RunCtx) {
 					continue
 				}
 				e := st.ev
-				_, err := b.Send(ctx, "t", &gPayload{ID: e.id, Flush: e.flush, Seq: e.seq, h: h})
+				sctx, cancel := context.WithCancel(ctx)
+				switch {
+				case st.cancelAfter == 0:
+					cancel()
+				case st.cancelAfter > 0:
+					n := st.cancelAfter
+					sim.Spawn(fmt.Sprintf("canceller%d", e.seq), func() {
+						for i := 0; i < n; i++ {
+							simrt.Yield("cancel:wait")
+						}
+						simrt.Probe("gate.send-cancelled-midway")
+						cancel()
+					})
+				}
+				_, err := b.Send(sctx, "t", &gPayload{ID: e.id, Flush: e.flush, Seq: e.seq, h: h})
+				_ = cancel
 				e.returned = true
-				e.accepted = err == nil
 				e.errd = err != nil
 			}
 		})
@@ -1319,7 +1396,23 @@ func runGateBroker(rc *RunCtx) {
 		rc.Failf("C11.stuck", "drain", "flush probes through the Broker did not finish: %s", strings.Join(sim.StuckInfo, "; "))
 		return
 	}
-	// conservation at the sink
+	// conservation: every event the filter ACCEPTED is in exactly one composite that the filter
+	// either handed to the Broker (expiry, FlushAll, Close) or returned to its pipeline on a flush;
+	// a composite returned to the pipeline continues down the pipeline: it reaches the sink
+	for _, e := range evs {
+		e.accepted = gr.accepted[e.seq]
+	}
+	atSink := map[string]bool{}
+	for _, c := range sink.seqs {
+		atSink[fmt.Sprint(c)] = true
+	}
+	emitted := emitLog
+	for _, cp := range gr.flushed {
+		if !atSink[fmt.Sprint(cp.Seqs)] {
+			rc.Failf("C11.lost", "flush-composite-stopped", "the filter returned the composite %v of a flush event to its pipeline, but it never reached the next nodes (sink saw %v): it did not continue down the pipeline", cp.Seqs, sink.seqs)
+			return
+		}
+	}
 	for _, id := range []string{"a", "b", "c"} {
 		var want []int
 		for _, e := range evs {
@@ -1328,7 +1421,7 @@ func runGateBroker(rc *RunCtx) {
 			}
 		}
 		var got []int
-		for _, c := range sink.seqs {
+		for _, c := range emitted {
 			mine := false
 			for _, s := range c {
 				for _, e := range evs {
@@ -1346,8 +1439,22 @@ func runGateBroker(rc *RunCtx) {
 				}
 			}
 		}
-		if !seqsEqual(got, want) {
-			rc.Failf("C11.lost", "through-broker", "id %s: the sinks received the events %v inside composites, the Sends that succeeded were %v (each exactly once, in order); composites at the sink: %v", id, got, want, sink.seqs)
+		// each accepted event exactly once ...
+		gotSorted := append([]int(nil), got...)
+		sort.Ints(gotSorted)
+		wantSorted := append([]int(nil), want...)
+		sort.Ints(wantSorted)
+		// ... and in arrival order: x before y whenever the filter had returned x before y reached it
+		for i := 0; i < len(got) && seqsEqual(gotSorted, wantSorted); i++ {
+			for j := i + 1; j < len(got); j++ {
+				if gr.ret[got[j]] != 0 && gr.ret[got[j]] < gr.call[got[i]] {
+					rc.Failf("C11.reordered", "through-broker", "id %s: event #%d is emitted before #%d although the filter had returned from #%d before #%d reached it; emitted: %v", id, got[i], got[j], got[j], got[i], emitted)
+					return
+				}
+			}
+		}
+		if !seqsEqual(gotSorted, wantSorted) {
+			rc.Failf("C11.lost", "through-broker", "id %s: the composites the filter emitted hold the events %v, the events it accepted were %v (each exactly once, in order); emitted: %v", id, got, want, emitted)
 			return
 		}
 	}
